@@ -1,7 +1,8 @@
 (** Entry points of the executable model used by the correspondence driver (ocaml/modeldrv.ml).
     Every entry point maps a list of byte strings (the case's arguments) to one line of text. *)
 From Coq Require Import List NArith ZArith Bool String.
-From BL Require Import Base.Bytes Reader.Entry Reader.SegMap Reader.EventStream Reader.Filter Render.Pretty Render.Time Queue.QueueModel Session.SessionModel.
+From BL Require Import Base.Bytes Reader.Entry Reader.SegMap Reader.EventStream Reader.Filter Render.Pretty Render.Time Render.Message Queue.QueueModel Session.SessionModel Mser.Types Mser.Encode Mser.Tag Mser.Visit.
+From BL Require Mser.Decode.
 Import ListNotations.
 Local Open Scope N_scope.
 
@@ -35,12 +36,14 @@ Definition end_token (st : endst) : bytes :=
   match st with EndOk => str "ok" | EndErr e => str "err:" ++ err_token e end.
 
 (** stage-1 stand-ins; replaced by Render.Message / Render.Time when present *)
+(** %.16g is not modelled yet: floating point leaves print as a marker the generators avoid *)
+Definition float_stub (a : aty) (raw : N) : bytes := str "<float>".
 Definition stub_msg (local : bool) (tfmt : bytes) (v : view) : bytes * bool := (str "<m>", true).
 (** the code as it is now: floor (D3), non-negative %y (D4), wide abs (D5) *)
 Definition cfg_now := mkTC true true true.
 Definition model_time (local : bool) (tfmt : bytes) (cs : clocksync) (clock : N) : bytes := fst (render_clock cfg_now local tfmt cs clock).
 
-Definition the_render (fmt tfmt : bytes) : view -> bytes * bool := print_event stub_msg model_time fmt tfmt.
+Definition the_render (fmt tfmt : bytes) : view -> bytes * bool := print_event (render_message float_stub cfg_now) model_time fmt tfmt.
 
 Definition api_print (fmt tfmt log : bytes) : bytes :=
   let (t, st) := print_events (the_render fmt tfmt) log in end_token st ++ sp ++ hex t.
@@ -155,3 +158,55 @@ Definition api_session (fence : bool) (ops : list sop) : bytes :=
 (** a source derived from a small number, the same way the driver builds it *)
 Definition site_source (n sev : N) : source :=
   mkSource 0 sev (str "cat" ++ dec n) (str "fn" ++ dec n) (str "file" ++ dec n ++ str ".cpp") (100 + n) (str "msg " ++ dec n ++ str " {}") (str "i").
+
+(** * mserialize: one line per (type, value) *)
+Fixpoint deser_ok (t : ty) : bool :=
+  match t with
+  | TArith _ | TEnum _ _ _ | TUnit => true
+  | TSeq _ e => deser_ok e
+  | TOpt e => deser_ok e
+  | TTuple ts => forallb deser_ok ts
+  | TStruct _ fs => forallb (fun f => deser_ok (snd f)) fs
+  | TVariant _ => false
+  end.
+Fixpoint all_prefixes_fail (t : ty) (e : bytes) (n : nat) : bool :=
+  match n with
+  | O => true
+  | S k => (match Mser.Decode.dec t (firstn k e) with Mser.Decode.DErr _ => true | Mser.Decode.DOk _ => false end) && all_prefixes_fail t e k
+  end.
+Definition cb_text (c : cb) : bytes :=
+  match c with
+  | CArith l raw => str "A" ++ [l] ++ dec raw
+  | CSeqBegin n t => str "[" ++ dec n ++ str ":" ++ hex t
+  | CSeqEnd => str "]"
+  | CSeqChars cs => str "C" ++ hex cs
+  | CTupleBegin t => str "(" ++ hex t
+  | CTupleEnd => str ")"
+  | CVariantBegin d t => str "<" ++ dec d ++ str ":" ++ hex t
+  | CVariantEnd => str ">"
+  | CNull => str "0"
+  | CEnum n e u h => str "E" ++ hex n ++ str ":" ++ hex e ++ str ":" ++ [u] ++ str ":" ++ hex h
+  | CStructBegin n t => str "{" ++ hex n ++ str ":" ++ hex t
+  | CStructEnd => str "}"
+  | CFieldBegin n t => str "F" ++ hex n ++ str ":" ++ hex t
+  | CFieldEnd => str "f"
+  | CRepeatBegin n t => str "R" ++ dec n
+  | CRepeatEnd n t => str "r" ++ dec n
+  | CSpecial t => str "S" ++ hex t
+  end.
+Definition no_special (n t i : bytes) : option (option (bytes * bytes)) := None.
+Definition api_mser (t : ty) (v : val) : bytes :=
+  let e := enc t v in
+  let tg := tag t in
+  join sp [str "wt=" ++ (if wt t v then str "1" else str "0");
+           str "size=" ++ dec (size_of t v);
+           str "bytes=" ++ hex e;
+           str "tag=" ++ hex tg;
+           str "rt=" ++ (if deser_ok t then match Mser.Decode.dec t e with Mser.Decode.DOk (v', []) => if beq_bytes (enc t v') e then str "ok" else str "bad" | _ => str "bad" end else str "na");
+           str "trunc=" ++ (if deser_ok t then (if all_prefixes_fail t e (List.length e) then str "ok" else str "bad") else str "na");
+           str "visit=" ++ (match visit false no_special 2048 tg tg e with
+                            | VOk (cbs, rest) => join (str ",") (map cb_text cbs) ++ str ";" ++ dec (lenN rest)
+                            | VErr _ _ => str "err" end);
+           str "text=" ++ (match visit true no_special 2048 tg tg e with
+                           | VOk (cbs, _) => hex (snd (tostring float_stub ts_init cbs))
+                           | VErr _ _ => str "err" end)].
